@@ -3,7 +3,7 @@
    on the tree) predicts what gorm attached.
    spec_holds: the property, evaluated on what gorm attached, against the reference join computed
    from the dumped tables by VALUE equality (never through string keys). *)
-From Verif Require Export Base C11_Model.
+From Verif Require Export Base C11_Model C11_Scan.
 Open Scope Z_scope.
 
 Fixpoint insz (x : Z) (l : list Z) : list Z :=
@@ -13,6 +13,18 @@ Definition outs_eqb (a b : outs) : bool := list_eqb zlist_eqb a b.
 Definition sort_outs (o : outs) : outs := map sortz o.
 
 Inductive mode := MPreload | MJoins | MAssocFind.
+
+(* compact input syntax of the generated cases files *)
+Definition vt (s : string) : sqlval := VText s.
+Arguments vt s%string.
+Fixpoint split_comma (s acc : string) : list string :=
+  match s with
+  | EmptyString => [acc]
+  | String a r => if Ascii.eqb a ","%char then acc :: split_comma r EmptyString
+                  else split_comma r (acc ++ String a EmptyString)%string
+  end.
+Definition cols (s : string) : list string := split_comma s EmptyString.
+Arguments cols s%string.
 
 Record case := mk_case {
   c_mode : mode;
@@ -47,7 +59,41 @@ Definition find_child (u : Z) (cs : list child) : option child :=
 
 Definition err_of (o : option outs) : Z := match o with Some _ => 0 | None => 1 end.
 
-Definition model_agrees (c : case) : bool :=
+(* a stored / scanned value against what a Go field holds (NULL reads as the zero value of a field that
+   is not a pointer) *)
+Definition mem_eqb (stored held : sqlval) : bool :=
+  match stored, held with
+  | VNull, VNull => true
+  | VNull, VInt z => z =? 0
+  | VNull, VText s => String.eqb s ""
+  | VInt a, VInt b => a =? b
+  | VText a, VText b => String.eqb a b
+  | _, _ => false
+  end.
+Definition rec_same (m o : Z * list sqlval) : bool :=
+  (fst m =? fst o) && list_eqb mem_eqb (snd m) (snd o).
+Definition recs_agree (m o : stored) : bool :=
+  forallb (fun x => existsb (rec_same x) o) m && forallb (fun y => existsb (fun x => rec_same x y) m) o.
+
+(* the records the model of SELECT list + Scan hands out for the uids the model attaches (C11_Scan) *)
+Definition model_recs (c : case) : stored :=
+  let h := c_hop c in
+  match c_mode c with
+  | MPreload =>
+    match (if c_m2m c then preload_m2m tsk h (c_parents c) (c_joins c) (c_children c)
+           else preload_hop tsk h (c_parents c) (c_children c)) with
+    | Some o => plain_recs (c_cols c) (c_rows c) (List.concat o)
+    | None => []
+    end
+  | MJoins => joins_recs (c_alias c) (c_cols c) (c_rows c) (List.concat (joins_model h (c_parents c) (c_children c)))
+  | MAssocFind =>
+    if c_m2m c
+    then find_m2m_recs tsk (names_model true false true) h (c_parents c) (c_joins c) (c_jcols c) (c_jrows c)
+                       (c_children c) (c_cols c) (c_rows c)
+    else plain_recs (c_cols c) (c_rows c) (assoc_find tsk h (c_parents c) (c_children c))
+  end.
+
+Definition model_agrees_att (c : case) : bool :=
   let h := c_hop c in
   match c_mode c with
   | MPreload =>
@@ -76,6 +122,9 @@ Definition model_agrees (c : case) : bool :=
                  else assoc_find tsk h (c_parents c) (c_children c))]
   end.
 
+Definition model_agrees (c : case) : bool :=
+  model_agrees_att c && ((negb (o_err c =? 0)) || recs_agree (model_recs c) (o_recs c)).
+
 (* ---- the property on the observed output ---- *)
 Definition single_ok (obs cands : list Z) : bool :=
   match obs, cands with
@@ -91,17 +140,6 @@ Definition per_parent_ok (single : bool) (obs ref : outs) : bool :=
 
 (* the attached record IS the stored row: it holds, column for column, what the row with its uid stores
    (a NULL column reads as the zero value of a Go field that is not a pointer) *)
-Definition mem_eqb (stored held : sqlval) : bool :=
-  match stored, held with
-  | VNull, VNull => true
-  | VNull, VInt z => z =? 0
-  | VNull, VText s => String.eqb s ""
-  | VInt a, VInt b => a =? b
-  | VText a, VText b => String.eqb a b
-  | _, _ => false
-  end.
-Fixpoint lookup_row (u : Z) (rs : list (Z * list sqlval)) : option (list sqlval) :=
-  match rs with [] => None | (k, v) :: r => if k =? u then Some v else lookup_row u r end.
 Definition rows_ok (c : case) : bool :=
   forallb (fun r => match lookup_row (fst r) (c_rows c) with
                     | Some vs => list_eqb mem_eqb vs (snd r) && (length vs =? length (c_cols c))%nat
